@@ -15,3 +15,25 @@ for dp, dn, fn in os.walk(root):
       out[mod] = table_for(ast.parse(open(p).read()), mod)
 json.dump(out, open(TABLE, 'w'), indent=0)
 print('functions:', sum(len(v) for v in out.values()))
+# who references whom (by simple name / self.method), for rename detection
+from ginsa.canon import _functions
+calls = {}
+for dp, dn, fn in os.walk(root):
+  for f in sorted(fn):
+    if f.endswith('.py'):
+      p = os.path.join(dp, f)
+      mod = os.path.relpath(p, root)[:-3].replace(os.sep, '.')
+      if mod.endswith('__init__'):
+        mod = mod[:-len('.__init__')] if '.' in mod else '__init__'
+      tree = ast.parse(open(p).read())
+      m = {}
+      for q, fnode in _functions(tree, mod):
+        refs = set()
+        for n in ast.walk(fnode):
+          if isinstance(n, ast.Name) and isinstance(n.ctx, ast.Load):
+            refs.add(n.id)
+          elif isinstance(n, ast.Attribute) and isinstance(n.value, ast.Name) and n.value.id in ('self', 'cls'):
+            refs.add('.' + n.attr)
+        m[q] = sorted(refs)
+      calls[mod] = m
+json.dump(calls, open(os.path.join(os.path.dirname(TABLE), 'canon_refs.json'), 'w'), indent=0)
